@@ -15,6 +15,7 @@ SPEC = {
         "and in posix::pipe nothing fallible lies between the successful pipe() and both from_raw_fd — so any early "
         "return at any k-th fallible step closes everything by RAII (the static counterpart of fault injection at "
         "every k); (f) no Result of a parent-side step is discarded outside a three-entry allow-list."
+        " Every function that creates a descriptor pair (found by census) wraps both in File before anything fallible."
     ),
     "not_decided": "which errno the kernel produces; EINTR on the status read (File::read does not retry).",
     "trusted_base": ["rustc MIR and drop elaboration (RAII closes a File when its owner goes out of scope)", "POSIX pipe/read/fork/_exit",
@@ -84,116 +85,125 @@ def run(ctx):
         return
     os_start, T = fm.fn, fm.T
 
-    # ---- R07.1 Ok only after EOF on the status channel -----------------------
-    pipes = os_start.calls_to(lambda f: M.callee_str(f) in ("posix::pipe", "popen::os::make_pipe"))
-    ctx.ob("R07.1", "status-pipe.site", len(pipes) == 1 and pipes[0][0] in fm.pre_region, os_start.loc(0), "os_start creates exactly one (status) pipe before fork; found %d" % len(pipes))
-    if len(pipes) != 1:
-        return
-    is_pipe_comp = lambda t, k: t[0] == "field" and t[2] == str(k) and M.strip(t[1])[0] == "call" and M.strip(t[1])[1] in ("posix::pipe", "popen::os::make_pipe")
-    reads = [(bb, t) for bb, t in os_start.calls() if M.callee_str(t["f"]).endswith("as std::io::Read>::read") and bb in fm.parent_region]
-    sreads = [(bb, t) for bb, t in reads if is_pipe_comp(M.noref(T.operand(t["args"][0])), 0)]
-    ctx.ob("R07.1", "status-read.site", len(sreads) == 1, os_start.loc(0), "exactly one read of the status pipe's read end on the parent path; found %d" % len(sreads))
-    if len(sreads) == 1:
-        rb, rt = sreads[0]
-        is_cnt = lambda t: M.strip(t)[0] == "call" and M.strip(t)[3] == rb
-        eof_e = bool_edges(os_start, T, lambda c: c[0] == "bin" and c[1] == "Eq" and const_of(c[3]) == 0 and is_cnt(c[2]), True)
-        oks = [(bb, si) for (bb, si, v, r) in result_variants(os_start, M.Explore(os_start)) if v == "Ok"]
-        ctx.floor("R07.1", "Ok returns of os_start", len(oks), 1)
-        for bb, si in oks:
-            ctx.ob("R07.1", "ok-only-after-eof", dominated_by_edges(os_start, bb, eof_e), os_start.loc(bb, si), "os_start may return Ok only under `read_cnt == 0` (EOF on the close-on-exec status pipe: exec succeeded)")
-        # the write end is released in the parent before the read
-        drops = []
-        for bb, t in os_start.calls():
-            if M.callee_str(t["f"]) in ("std::mem::drop", "core::mem::drop") and is_pipe_comp(M.noref(T.operand(t["args"][0])), 1) and bb in fm.parent_region and bb not in fm.child_region:
-                drops.append(bb)
-        for bb in os_start.live_blocks():
-            tt = os_start.blocks[bb]["term"]
-            if tt["k"] == "drop" and bb in fm.parent_region and bb not in fm.child_region:
-                sl = T.place_slot(tt["p"])
-                if sl and sl[2] == ("1",) and is_pipe_comp(M.noref(T.place(tt["p"])), 1) and not drop_is_flagged(os_start, bb):
+    def _status_channel():
+        # ---- R07.1 Ok only after EOF on the status channel -----------------------
+        # functions that hand out a fresh pipe as (File, File): whoever calls the OS for one, and plain delegations to such a function
+        pipefns = {fn_.path for fn_, _, _ in extern_calls(prog, ["pipe", "pipe2", "socketpair"])}
+        for p_, f_ in prog.fns.items():
+            cs_ = [M.callee_str(t_["f"]) for _, t_ in f_.calls() if not is_panic_call(t_)]
+            if len(cs_) == 1 and cs_[0] in pipefns:
+                pipefns.add(p_)
+        pipes = os_start.calls_to(lambda f: M.callee_str(f) in pipefns)
+        ctx.ob("R07.1", "status-pipe.site", len(pipes) == 1 and pipes[0][0] in fm.pre_region, os_start.loc(0), "os_start creates exactly one (status) pipe before fork; found %d" % len(pipes))
+        if len(pipes) != 1:
+            return
+        is_pipe_comp = lambda t, k: t[0] == "field" and t[2] == str(k) and M.strip(t[1])[0] == "call" and M.strip(t[1])[1] in pipefns
+        reads = [(bb, t) for bb, t in os_start.calls() if M.callee_str(t["f"]).endswith("as std::io::Read>::read") and bb in fm.parent_region]
+        sreads = [(bb, t) for bb, t in reads if is_pipe_comp(M.noref(T.operand(t["args"][0])), 0)]
+        ctx.ob("R07.1", "status-read.site", len(sreads) == 1, os_start.loc(0), "exactly one read of the status pipe's read end on the parent path; found %d" % len(sreads))
+        if len(sreads) == 1:
+            rb, rt = sreads[0]
+            is_cnt = lambda t: M.strip(t)[0] == "call" and M.strip(t)[3] == rb
+            eof_e = bool_edges(os_start, T, lambda c: c[0] == "bin" and c[1] == "Eq" and const_of(c[3]) == 0 and is_cnt(c[2]), True)
+            oks = [(bb, si) for (bb, si, v, r) in result_variants(os_start, M.Explore(os_start)) if v == "Ok"]
+            ctx.floor("R07.1", "Ok returns of os_start", len(oks), 1)
+            for bb, si in oks:
+                ctx.ob("R07.1", "ok-only-after-eof", dominated_by_edges(os_start, bb, eof_e), os_start.loc(bb, si), "os_start may return Ok only under `read_cnt == 0` (EOF on the close-on-exec status pipe: exec succeeded)")
+            # the write end is released in the parent before the read
+            drops = []
+            for bb, t in os_start.calls():
+                if M.callee_str(t["f"]) in ("std::mem::drop", "core::mem::drop") and is_pipe_comp(M.noref(T.operand(t["args"][0])), 1) and bb in fm.parent_region and bb not in fm.child_region:
                     drops.append(bb)
-        ctx.ob("R07.1", "write-end-released-before-read", bool(drops) and dominated_by_blocks(os_start, rb, drops, start=fm.parent_entry), os_start.loc(rb),
-               "the parent's copy of the status write end must be dropped before the blocking read (otherwise EOF never arrives); drops at %s" % sorted(drops))
-        # both ends close-on-exec before fork
-        for k in (0, 1):
-            e = []
-            for bb, t in os_start.calls_to(lambda f: M.callee_str(f) == "popen::os::set_inheritable"):
-                a = [T.operand(x) for x in t["args"]]
-                if is_pipe_comp(M.noref(a[0]), k) and const_of(a[1]) == 0:
-                    e += try_ok_edges(os_start, T, lambda c: c[1] == "popen::os::set_inheritable" and c[3] == bb)
-            ctx.ob("R07.1", "status-pipe.%d.cloexec-before-fork" % k, dominated_by_edges(os_start, fm.fork_bb, e), os_start.loc(fm.fork_bb),
-                   "set_inheritable(&exec_fail_pipe.%d, false)? must succeed before fork" % k)
-        # create: Ok(inst) dominated by os_start's success
-        cr = prog.one("popen::Popen::create")
-        Tc = M.Terms(cr)
-        oke = try_ok_edges(cr, Tc, lambda c: c[1] == os_start.path)
-        for (bb, si, v, r) in result_variants(cr, M.Explore(cr)):
-            if v == "Ok":
-                ctx.ob("R07.1", "create.ok-after-os_start", dominated_by_edges(cr, bb, oke), cr.loc(bb, si), "Popen::create returns Ok only after os_start(..)? succeeded")
+            for bb in os_start.live_blocks():
+                tt = os_start.blocks[bb]["term"]
+                if tt["k"] == "drop" and bb in fm.parent_region and bb not in fm.child_region:
+                    sl = T.place_slot(tt["p"])
+                    if sl and sl[2] == ("1",) and is_pipe_comp(M.noref(T.place(tt["p"])), 1) and not drop_is_flagged(os_start, bb):
+                        drops.append(bb)
+            ctx.ob("R07.1", "write-end-released-before-read", bool(drops) and dominated_by_blocks(os_start, rb, drops, start=fm.parent_entry), os_start.loc(rb),
+                   "the parent's copy of the status write end must be dropped before the blocking read (otherwise EOF never arrives); drops at %s" % sorted(drops))
+            # both ends close-on-exec before fork
+            for k in (0, 1):
+                e = []
+                for bb, t in os_start.calls_to(lambda f: M.callee_str(f) == "popen::os::set_inheritable"):
+                    a = [T.operand(x) for x in t["args"]]
+                    if is_pipe_comp(M.noref(a[0]), k) and const_of(a[1]) == 0:
+                        e += try_ok_edges(os_start, T, lambda c: c[1] == "popen::os::set_inheritable" and c[3] == bb)
+                ctx.ob("R07.1", "status-pipe.%d.cloexec-before-fork" % k, dominated_by_edges(os_start, fm.fork_bb, e), os_start.loc(fm.fork_bb),
+                       "set_inheritable(&exec_fail_pipe.%d, false)? must succeed before fork" % k)
+            # create: Ok(inst) dominated by os_start's success
+            cr = prog.one("popen::Popen::create")
+            Tc = M.Terms(cr)
+            oke = try_ok_edges(cr, Tc, lambda c: c[1] == os_start.path)
+            for (bb, si, v, r) in result_variants(cr, M.Explore(cr)):
+                if v == "Ok":
+                    ctx.ob("R07.1", "create.ok-after-os_start", dominated_by_edges(cr, bb, oke), cr.loc(bb, si), "Popen::create returns Ok only after os_start(..)? succeeded")
 
-        # ---- R07.2 codec agreement -------------------------------------------
-        WRITE_NAMES = ("std::io::Write::write_all", "<std::fs::File as std::io::Write>::write_all", "<std::fs::File as std::io::Write>::write", "std::io::Write::write")
-        wa = []
-        for p_ in [os_start.path] + sorted(fm.child_only_fns()):
-            f_ = prog.fns[p_]
-            for bb, t in f_.calls():
-                if M.callee_str(t["f"]) in WRITE_NAMES and fm.in_child(f_, bb):
-                    wa.append((f_, bb, t))
-        ctx.ob("R07.2", "child-report.site", len(wa) == 1, os_start.loc(fm.child_entry), "exactly one write of the error code in the child; found %d" % len(wa))
-        if len(wa) == 1:
-            wf, wb, wt = wa[0]
-            Tw = T if wf.path == os_start.path else M.Terms(wf)
-            a = [Tw.operand(x) for x in wt["args"]]
+            # ---- R07.2 codec agreement -------------------------------------------
+            WRITE_NAMES = ("std::io::Write::write_all", "<std::fs::File as std::io::Write>::write_all", "<std::fs::File as std::io::Write>::write", "std::io::Write::write")
+            wa = []
+            for p_ in [os_start.path] + sorted(fm.child_only_fns()):
+                f_ = prog.fns[p_]
+                for bb, t in f_.calls():
+                    if M.callee_str(t["f"]) in WRITE_NAMES and fm.in_child(f_, bb):
+                        wa.append((f_, bb, t))
+            ctx.ob("R07.2", "child-report.site", len(wa) == 1, os_start.loc(fm.child_entry), "exactly one write of the error code in the child; found %d" % len(wa))
+            if len(wa) == 1:
+                wf, wb, wt = wa[0]
+                Tw = T if wf.path == os_start.path else M.Terms(wf)
+                a = [Tw.operand(x) for x in wt["args"]]
 
-            def through_caller(term):
-                """a helper's parameter, replaced by what the (child-region) caller passes"""
-                if wf.path == os_start.path:
-                    return term
-                cs = callers_of(prog, wf.path)
-                if len(cs) != 1:
-                    return term
-                cf, cb, ct = cs[0]
-                Tc_ = T if cf.path == os_start.path else M.Terms(cf)
-                sub = {("param", i + 1, wf.local_name(i + 1)): Tc_.operand(x) for i, x in enumerate(ct["args"])}
+                def through_caller(term):
+                    """a helper's parameter, replaced by what the (child-region) caller passes"""
+                    if wf.path == os_start.path:
+                        return term
+                    cs = callers_of(prog, wf.path)
+                    if len(cs) != 1:
+                        return term
+                    cf, cb, ct = cs[0]
+                    Tc_ = T if cf.path == os_start.path else M.Terms(cf)
+                    sub = {("param", i + 1, wf.local_name(i + 1)): Tc_.operand(x) for i, x in enumerate(ct["args"])}
 
-                def rw(t_):
-                    if isinstance(t_, frozenset):
-                        return frozenset(rw(y) for y in t_)
-                    if not isinstance(t_, tuple) or not t_:
-                        return t_
-                    if t_ in sub:
-                        return sub[t_]
-                    if isinstance(t_[0], str):
-                        return (t_[0],) + tuple(rw(y) if isinstance(y, (tuple, frozenset)) else y for y in t_[1:])
-                    return tuple(rw(y) if isinstance(y, (tuple, frozenset)) else y for y in t_)
-                return rw(term)
-            dest = through_caller(M.noref(a[0]))
-            ctx.ob("R07.2", "child-report.to-status-pipe", is_pipe_comp(M.noref(dest), 1), wf.loc(wb), "the child reports on %s (must be the status pipe's write end)" % M.term_str(dest)[:100])
-            arr = M.noref(a[1])
-            while arr[0] == "cast":
-                arr = arr[2]
-            enc, src = shift_table_encode(Tw, arr)
-            if src is not None:
-                src = through_caller(src)
-            # decode expression: argument of from_raw_os_error
-            dec = None
-            dterm = None
-            for bb, t in os_start.calls_to(lambda f: M.callee_str(f) == "std::io::Error::from_raw_os_error"):
-                if bb in fm.parent_region:
-                    dterm = T.operand(t["args"][0])
-                    x = dterm
-                    while x[0] == "cast":
-                        x = x[2]
-                    dec = shift_table_decode(x)
-            ctx.ob("R07.2", "codec-tables-agree", enc is not None and dec is not None and enc == dec and sorted(enc) == [0, 1, 2, 3], wf.loc(wb),
-                   "child encodes byte->shift %s, parent decodes %s (must be equal, 4 bytes)" % (enc, dec))
-            n = len(arr[2]) if arr[0] == "agg" else 4
-            len_e = bool_edges(os_start, T, lambda c: c[0] == "bin" and c[1] == "Eq" and const_of(c[3]) == n and is_cnt(c[2]), True)
-            for bb, t in os_start.calls_to(lambda f: M.callee_str(f) == "std::io::Error::from_raw_os_error"):
-                ctx.ob("R07.2", "decode-under-len==%d" % n, dominated_by_edges(os_start, bb, len_e), os_start.loc(bb), "the code is decoded only when exactly %d bytes (what the child writes) were read" % n)
-            # what is encoded is do_exec's error
-            okc = src is not None and M.contains(src, lambda u: u[0] == "call" and u[1] == "std::io::Error::raw_os_error") and M.contains(src, lambda u: u[0] == "call" and u[1] == DE)
-            ctx.ob("R07.2", "reported=do_exec-error", okc, wf.loc(wb), "encoded value = %s (must be raw_os_error of do_exec's Err)" % (M.term_str(src) if src else None))
+                    def rw(t_):
+                        if isinstance(t_, frozenset):
+                            return frozenset(rw(y) for y in t_)
+                        if not isinstance(t_, tuple) or not t_:
+                            return t_
+                        if t_ in sub:
+                            return sub[t_]
+                        if isinstance(t_[0], str):
+                            return (t_[0],) + tuple(rw(y) if isinstance(y, (tuple, frozenset)) else y for y in t_[1:])
+                        return tuple(rw(y) if isinstance(y, (tuple, frozenset)) else y for y in t_)
+                    return rw(term)
+                dest = through_caller(M.noref(a[0]))
+                ctx.ob("R07.2", "child-report.to-status-pipe", is_pipe_comp(M.noref(dest), 1), wf.loc(wb), "the child reports on %s (must be the status pipe's write end)" % M.term_str(dest)[:100])
+                arr = M.noref(a[1])
+                while arr[0] == "cast":
+                    arr = arr[2]
+                enc, src = shift_table_encode(Tw, arr)
+                if src is not None:
+                    src = through_caller(src)
+                # decode expression: argument of from_raw_os_error
+                dec = None
+                dterm = None
+                for bb, t in os_start.calls_to(lambda f: M.callee_str(f) == "std::io::Error::from_raw_os_error"):
+                    if bb in fm.parent_region:
+                        dterm = T.operand(t["args"][0])
+                        x = dterm
+                        while x[0] == "cast":
+                            x = x[2]
+                        dec = shift_table_decode(x)
+                ctx.ob("R07.2", "codec-tables-agree", enc is not None and dec is not None and enc == dec and sorted(enc) == [0, 1, 2, 3], wf.loc(wb),
+                       "child encodes byte->shift %s, parent decodes %s (must be equal, 4 bytes)" % (enc, dec))
+                n = len(arr[2]) if arr[0] == "agg" else 4
+                len_e = bool_edges(os_start, T, lambda c: c[0] == "bin" and c[1] == "Eq" and const_of(c[3]) == n and is_cnt(c[2]), True)
+                for bb, t in os_start.calls_to(lambda f: M.callee_str(f) == "std::io::Error::from_raw_os_error"):
+                    ctx.ob("R07.2", "decode-under-len==%d" % n, dominated_by_edges(os_start, bb, len_e), os_start.loc(bb), "the code is decoded only when exactly %d bytes (what the child writes) were read" % n)
+                # what is encoded is do_exec's error
+                okc = src is not None and M.contains(src, lambda u: u[0] == "call" and u[1] == "std::io::Error::raw_os_error") and M.contains(src, lambda u: u[0] == "call" and u[1] == DE)
+                ctx.ob("R07.2", "reported=do_exec-error", okc, wf.loc(wb), "encoded value = %s (must be raw_os_error of do_exec's Err)" % (M.term_str(src) if src else None))
+
+    _status_channel()
 
     # ---- R07.3 the child never returns into the caller ------------------------
     rets = [b for b in os_start.return_blocks() if b in fm.child_region]
@@ -273,19 +283,29 @@ def run(ctx):
     ctx.ob("R07.5", "control:disown-matcher", ctl, "", "positive control: the matcher recognises forget / into_raw_fd / leak / ManuallyDrop::new / into_raw and nothing else (sites seen in the crate: %d)" % seen_sites)
     for fn, bb, t in extern_calls(prog, ["close", "dup", "dup3", "open", "openat", "socket", "socketpair", "creat", "fdopen"]):
         ctx.ob("R07.5", "raw-fd:%s@%s" % (M.callee_str(t["f"]), fn.path), False, fn.loc(bb), "raw descriptor call %s outside an owning wrapper" % M.callee_str(t["f"]))
-    pf = prog.one("posix::pipe")
-    Tp = M.Terms(pf)
-    lp = pf.calls_to(lambda f: M.callee_str(f) in ("libc::pipe", "libc::pipe2"))
-    fr = pf.calls_to(lambda f: M.callee_str(f).endswith("from_raw_fd"))
-    ok = len(lp) == 1 and len(fr) == 2
-    if ok:
-        oke = try_ok_edges(pf, Tp, lambda c: c[1] == "posix::check_err")
-        between = pf.reachable(oke[0][1]) if oke else set()
-        # between the success edge and the second from_raw_fd: no call other than from_raw_fd / indexing asserts
-        last_fr = max(b for b, _ in fr)
-        bad = [M.callee_str(t["f"]) for b, t in pf.calls(between) if last_fr in pf.reachable(b) and b != last_fr and not M.callee_str(t["f"]).endswith("from_raw_fd")]
-        ok = bool(oke) and not bad and all(dominated_by_edges(pf, b, oke) for b, _ in fr)
-    ctx.ob("R07.5", "pipe.owned-immediately", ok, pf.loc(0), "in posix::pipe both descriptors must be wrapped by File::from_raw_fd right after the successful pipe() with nothing fallible in between")
+    # every function that obtains raw descriptors from the OS (found by census, not by name) hands them to an owning File at once:
+    # from the success edge of the creating call to the last from_raw_fd there is nothing that can fail or return
+    makers = sorted({fn.path for fn, bb, t in extern_calls(prog, ["pipe", "pipe2", "socketpair"])})
+    ctx.floor("R07.5", "functions creating raw descriptor pairs", len(makers), 1)
+    for mp_ in makers:
+        pf = prog.fns[mp_]
+        Tp = M.Terms(pf)
+        lp = pf.calls_to(lambda f: M.callee_str(f) in ("libc::pipe", "libc::pipe2", "libc::socketpair"))
+        fr = pf.calls_to(lambda f: M.callee_str(f).endswith("from_raw_fd"))
+        ok = len(lp) == 1 and len(fr) == 2
+        bad = []
+        if ok:
+            oke = try_ok_edges(pf, Tp, lambda c: c[1] == "posix::check_err")
+            between = pf.reachable(oke[0][1]) if oke else set()
+            # between the success edge and the second from_raw_fd: no call other than from_raw_fd / indexing asserts
+            last_fr = max(b for b, _ in fr)
+            bad = [M.callee_str(t["f"]) for b, t in pf.calls(between) if last_fr in pf.reachable(b) and b != last_fr and not M.callee_str(t["f"]).endswith("from_raw_fd")]
+            # ... and every return reachable from the success edge lies behind both wraps
+            rets = [r for r in pf.return_blocks() if r in between]
+            ok = bool(oke) and not bad and all(dominated_by_edges(pf, b, oke) for b, _ in fr) and all(dominated_by_blocks(pf, r, [b], start=oke[0][1]) for r in rets for b, _ in fr)
+        ctx.ob("R07.5", "%s.owned-immediately" % mp_.split("::")[-1], ok, pf.loc(lp[0][0] if lp else 0),
+               "in %s both descriptors must be wrapped by File::from_raw_fd right after the successful creation, with nothing fallible in between: "
+               "an early return there leaves two descriptors open with no owner (calls in between: %s)" % (mp_, bad))
 
     # ---- R07.6 (first part) the failure test of the syscall wrappers is not vacuous -------------------
     ce_calls = callers_of(prog, "posix::check_err")
